@@ -5,7 +5,8 @@ import json, os, subprocess, sys
 repo = sys.argv[1] if len(sys.argv) > 1 else "/repo"
 base = json.load(open("/root/.vp/BASELINE.json"))
 env = dict(os.environ); env.update(GOFLAGS="-mod=mod", GOPROXY="off", GOTOOLCHAIN="auto"); env.pop("GOSUMDB", None)
-p = subprocess.run(["go", "test", "-mod=mod", "-json", "-vet=off", "-count=1", "-timeout", "25m", "./..."],
+ov = ["-overlay", sys.argv[2]] if len(sys.argv) > 2 else []
+p = subprocess.run(["go", "test", "-mod=mod"] + ov + [ "-json", "-vet=off", "-count=1", "-timeout", "25m", "./..."],
                    cwd=repo, env=env, stdout=subprocess.PIPE, stderr=subprocess.DEVNULL, text=True)
 passed, failed = set(), set()
 for line in p.stdout.splitlines():
